@@ -140,7 +140,8 @@ def spec_features(spec):
     return sorted(f)
 
 
-def oracle(spec, outcomes, model: Model, drv: Driver, shut, quiescent, classes):
+def oracle(spec, outcomes, model: Model, drv: Driver, shut, quiescent, classes,
+           prop='C01'):
     viol = []
     sim = drv.sim
     to_int = drv.to_int
@@ -151,7 +152,7 @@ def oracle(spec, outcomes, model: Model, drv: Driver, shut, quiescent, classes):
             reason is not None and not isinstance(reason, SchedulerStop)):
         exc = sim.crashed or reason
         viol.append(Violation(
-            'C01:scheduler-crash:' + exc_sig(exc),
+            f'{prop}:scheduler-crash:' + exc_sig(exc),
             f'scheduler aborted with {exc!r}'))
         return viol
 
@@ -166,7 +167,7 @@ def oracle(spec, outcomes, model: Model, drv: Driver, shut, quiescent, classes):
         t, p, sn = ev['name'], to_int.get(ev['cycle']), ev['submit_num']
         if p is None or not model.is_valid(t, p):
             viol.append(Violation(
-                'C01:launch-off-sequence',
+                f'{prop}:launch-off-sequence',
                 f'{ev["cycle"]}/{t} launched but is not on any of its '
                 f'sequences within [ICP, FCP]'))
             continue
@@ -178,13 +179,13 @@ def oracle(spec, outcomes, model: Model, drv: Driver, shut, quiescent, classes):
             done.setdefault((name, q), set()).add(out)
         if not model.prereq(t, p, done):
             viol.append(Violation(
-                'C01:launch-before-prerequisites',
+                f'{prop}:launch-before-prerequisites',
                 f'{ev["cycle"]}/{t} launched while its graph prerequisite is '
                 f'false over outputs recorded complete: {sorted(ev["done"])}'))
         seen[(t, p)] = seen.get((t, p), 0) + 1
         if seen[(t, p)] > 1:
             viol.append(Violation(
-                'C01:launched-twice',
+                f'{prop}:launched-twice',
                 f'{ev["cycle"]}/{t} launched {seen[(t, p)]} times without '
                 f'retries configured'))
     # (b) closure equality when all finished tasks are complete
@@ -227,26 +228,26 @@ def oracle(spec, outcomes, model: Model, drv: Driver, shut, quiescent, classes):
                 for q in model.valid[t]))
         if chain:
             viol.append(Violation(
-                'C01:missing-run:parentless-point-after-unspawned-parented-point',
+                f'{prop}:missing-run:parentless-point-after-unspawned-parented-point',
                 f'parentless instances never auto-spawned: {chain} (the '
                 f'task is parented at an earlier point whose instance never '
                 f'spawned); all missing: {sorted(missing)}'))
             return viol
         if extra:
             viol.append(Violation(
-                'C01:extra-run',
+                f'{prop}:extra-run',
                 f'instances launched that are not in the model closure: '
                 f'{sorted(extra)}'))
         if missing:
             viol.append(Violation(
-                'C01:missing-run',
+                f'{prop}:missing-run',
                 f'instances in the model closure never launched: '
                 f'{sorted(missing)} (shutdown={shut}, reason={reason!r})'))
         if waiters:
             pass
         elif not shut:
             viol.append(Violation(
-                'C01:no-auto-shutdown',
+                f'{prop}:no-auto-shutdown',
                 'all tasks complete but the scheduler did not shut down by '
                 'itself (quiescent)'))
     return viol
